@@ -199,6 +199,7 @@ Check (C12_quiescence_is_a_schedule :
     exists ts, arun c 0 (init hs) xs = final c hs ts).
 From Coq Require Import List NArith Bool.
 From V.C12 Require Import Start StartProofs.
+From V.gen Require C12Tables.
 Import ListNotations.
 Open Scope N_scope.
 From V.C12 Require Import StartProperties.
@@ -250,3 +251,12 @@ Check (C12_start_handle_gone_closes :
     find_task k (tasks s) = Some t -> t_ph t = PRun -> hdrop s = true -> t_res t = false ->
     exists t', find_task k (tasks (task_poll s k)) = Some t' /\ t_running t' = false /\
                t_in t' = t_in t /\ t_fwd t' = t_fwd t).
+Check (C12_tables_in_sync :
+  C12Tables.select_biased = true /\ C12Tables.select_order = [1; 2; 3; 4; 5; 6] /\
+  C12Tables.conn_poll_order = [1; 2; 3; 4; 5] /\ C12Tables.close_order = [1; 2; 3; 4; 5] /\
+  C12Tables.handle_order = [1; 2] /\
+  C12Tables.notification_errors = 6 /\ C12Tables.sync_closed_maps_to = 1 /\ C12Tables.sync_full_maps_to = 2 /\
+  C12Tables.sync_uses_try_send = true /\ C12Tables.async_uses_send = true /\
+  C12Tables.forget_sites = [true; true; true; true; true] /\
+  1 <= C12Tables.C12_SYNC_CHANNEL_SIZE /\ 1 <= C12Tables.C12_ASYNC_CHANNEL_SIZE /\
+  1 <= C12Tables.C12_NEGOTIATION_TIMEOUT_SECS).
